@@ -532,7 +532,27 @@ class X12LoopDataNode(X12DataNode):
             if isinstance(child, X12SegmentDataNode) and child.seg_data is not None \
                     and child.seg_data.seg_term is not None:
                 return (child.seg_data.seg_term, child.seg_data.ele_term, child.seg_data.subele_term)
-        return self.parent._get_terminators()
+        if self.parent is not None:
+            return self.parent._get_terminators()
+        # the top of the tree has no segment of its own (left): the segments further down know them too
+        for child in self.children:
+            if isinstance(child, X12LoopDataNode):
+                terms = child._get_terminators_below()
+                if terms is not None:
+                    return terms
+        return (None, None, None)
+
+    def _get_terminators_below(self):
+        for child in self.children:
+            if isinstance(child, X12SegmentDataNode) and child.seg_data is not None \
+                    and child.seg_data.seg_term is not None:
+                return (child.seg_data.seg_term, child.seg_data.ele_term, child.seg_data.subele_term)
+        for child in self.children:
+            if isinstance(child, X12LoopDataNode):
+                terms = child._get_terminators_below()
+                if terms is not None:
+                    return terms
+        return None
 
     def copy(self):
         return self.__copy__()
